@@ -84,7 +84,9 @@ pub fn cli_tree(ctx: &mut Ctx) {
         let stdio = rng.gen_bool(0.25);
         let split = !stdio && rng.gen_bool(0.25);
         let mut cargs: Vec<String> = vec!["--quiet".into()];
-        if stdio { cargs.extend(["experimental", "stdio", "--create", "-r"].map(String::from)); } else { cargs.extend(["create", "a.pna", "-r"].map(String::from)); }
+        // split archives also under names that are not `*.pna` (dotted, no extension): the part names must chain
+        let arch_name: &str = if split { ["a.pna", "a.pna", "arc.v1.2.tar", "backup", "my.archive.PNA"][rng.gen_range(0..5)] } else { "a.pna" };
+        if stdio { cargs.extend(["experimental", "stdio", "--create", "-r"].map(String::from)); } else { cargs.extend(["create", arch_name, "-r"].map(String::from)); }
         cargs.extend(comp.clone()); cargs.extend(cipher.clone());
         if keep_dir { cargs.push("--keep-dir".into()); }
         if ktc { cargs.push("--keep-timestamp".into()); }
@@ -103,8 +105,11 @@ pub fn cli_tree(ctx: &mut Ctx) {
         if !cr.ok() { ctx.violation("C02", "`pna create` failed on a supported tree", json!({"case":attrs,"run":cr.brief()})); continue; }
         if stdio { std::fs::write(sbx.path("a.pna"), &cr.stdout).unwrap(); }
         let mut xargs: Vec<String> = vec!["--quiet".into()];
-        let arch = if sbx.path("a.pna").exists() { "a.pna" } else { "a.part1.pna" };
+        let first_part: String = std::fs::read_dir(&sbx.root).unwrap().filter_map(|e| e.ok()).map(|e| e.file_name().to_string_lossy().to_string())
+            .find(|n| n.contains(".part1") && !n.contains(".part1") == false && (n.ends_with(".part1") || n.to_lowercase().ends_with(".part1.pna"))).unwrap_or_else(|| "a.part1.pna".into());
+        let arch: &str = if sbx.path(arch_name).exists() { arch_name } else { first_part.as_str() };
         let xstdio = stdio && arch == "a.pna";
+        ctx.count(&format!("archive-name:{arch_name}"));
         if xstdio { xargs.extend(["experimental", "stdio", "--extract", "--out-dir", "out"].map(String::from)); } else { xargs.extend(["extract", arch, "--out-dir", "out"].map(String::from)); }
         if enc != 0 { xargs.push(format!("--password={pw}")); }
         if ktx { xargs.push("--keep-timestamp".into()); }
@@ -152,5 +157,7 @@ pub fn cli_tree(ctx: &mut Ctx) {
         items.sort_by(|a, b| a.0.cmp(&b.0));
         let imp = if items.is_empty() { "ok .".to_string() } else { format!("ok {}", items.into_iter().map(|x| x.1).collect::<Vec<_>>().join(";")) };
         ctx.case(json!({"nodes":nodes.len(),"keep_dir":keep_dir}), format!("tree.expected {}{}{}{}{} {}", keep_dir as u8, ktc as u8, kpc as u8, ktx as u8, kpx as u8, wire), imp, nodes.iter().any(|n| n.kind == 0));
+        // the specification against the composition of the create and extract transcriptions (model-internal, on the same tree)
+        ctx.case(json!({"op":"composed","nodes":nodes.len()}), format!("tree.composed {}{}{}{}{} {}", keep_dir as u8, ktc as u8, kpc as u8, ktx as u8, kpx as u8, wire), "ok agree".into(), true);
     }
 }
